@@ -4,9 +4,10 @@ Domain : the three built-in generators (any->dot on generated models, textX->dot
          generated metamodels; inputs from the C29 generators), each run once without faults to count
          the operations (open / write / flush / close) performed on files in the output directory,
          then re-run in a fresh directory with a failure injected at one generated operation index:
-         a write that raises before writing, a write that stores only part of its data and raises, a
-         flush that raises, a close that raises after the data of the last buffer was lost; the target
-         either absent beforehand or present with older complete content (run with overwrite).
+         a write / flush / close that raises, with none or half of the still-buffered data reaching the
+         disk (the wrapper keeps its own small write buffer, so a failing close really loses data);
+         the target absent beforehand, present with older complete content, or a symbolic link to an
+         older export elsewhere / to nothing (run with overwrite).
 Oracle : after the failed run the target path is absent, or holds complete content (the older content or
          the full new export; object ids normalised); no other file is left in the output directory;
          a following fault-free run *without* overwrite ends with a complete file at the target path
@@ -57,8 +58,8 @@ def cases(draw):
         sub = draw(c29.mm_cases())
         gen = draw(st.sampled_from(["textx-dot", "textx-plantuml"]))
     return {"sub": sub, "gen": gen, "op": draw(st.integers(0, 10 ** 6)),
-            "fault": draw(st.sampled_from(["raise", "partial", "partial", "lost_buffer"])),
-            "preexisting": draw(st.booleans())}
+            "fault": draw(st.sampled_from(["raise", "partial"])),
+            "initial": draw(st.sampled_from(["absent", "absent", "old", "old", "symlink_old", "symlink_dangling"]))}
 
 
 def strategy(tier):
@@ -70,12 +71,17 @@ class Injected(OSError):
 
 
 class Proxy:
-    """file object wrapper that counts operations and fails at one of them"""
+    """file object wrapper that counts operations and fails at one of them.  It keeps its own small write buffer
+    (like a buffered file: data reaches the disk when the buffer fills, at flush and at close), so that a failing
+    close or flush really loses the data that was still buffered."""
+
+    BUF = 48
 
     def __init__(self, f, ctl, path):
         object.__setattr__(self, "_f", f)
         object.__setattr__(self, "_ctl", ctl)
         object.__setattr__(self, "_path", path)
+        object.__setattr__(self, "_buf", [])
 
     def __getattr__(self, name):
         return getattr(self._f, name)
@@ -90,17 +96,28 @@ class Proxy:
     def __iter__(self):
         return iter(self._f)
 
+    def _pending(self):
+        data = "".join(self._buf)
+        del self._buf[:]
+        return data
+
+    def _spill(self, data):
+        if data:
+            self._f.write(data)
+            self._f.flush()
+
     def write(self, data):
         ctl = self._ctl
-        hit = ctl.tick("write")
-        if hit:
-            if ctl.fault in ("partial", "lost_buffer") and len(data) > 1:
-                self._f.write(data[: len(data) // 2])
-                self._f.flush()
+        if ctl.tick("write"):
+            if ctl.fault == "partial":
+                pending = self._pending() + data
+                self._spill(pending[: len(pending) // 2])
             raise Injected(28, "No space left on device (injected)")
-        n = self._f.write(data)
+        self._buf.append(data)
         ctl.written += 1
-        return n
+        if sum(len(x) for x in self._buf) > self.BUF:
+            self._spill(self._pending())
+        return len(data)
 
     def writelines(self, lines):
         for ln in lines:
@@ -108,24 +125,24 @@ class Proxy:
 
     def flush(self):
         if self._ctl.tick("flush"):
+            if self._ctl.fault == "partial":
+                pending = self._pending()
+                self._spill(pending[: len(pending) // 2])
             raise Injected(5, "Input/output error (injected)")
-        return self._f.flush()
+        self._spill(self._pending())
+        return None
 
     def close(self):
         if self._f.closed:
             return None
         ctl = self._ctl
         if ctl.tick("close"):
+            pending = self._pending()  # what was still buffered never reaches the disk
+            if ctl.fault == "partial":
+                self._spill(pending[: len(pending) // 2])
             self._f.close()
-            if ctl.fault == "lost_buffer":
-                # the data of the last buffer never reached the disk
-                try:
-                    size = os.path.getsize(self._path)
-                    with io.FileIO(self._path, "r+") as raw:
-                        raw.truncate(max(0, size - 7))
-                except OSError:
-                    pass
             raise Injected(5, "Input/output error on close (injected)")
+        self._spill(self._pending())
         return self._f.close()
 
 
@@ -152,7 +169,9 @@ class Control:
         try:
             if isinstance(file, int):
                 file = os.readlink(f"/proc/self/fd/{file}")
-            p = os.path.realpath(os.fspath(file))
+            file = os.fspath(file)
+            # the directory is resolved, the name is not: an output name that is a symbolic link is still an output
+            p = os.path.join(os.path.realpath(os.path.dirname(os.path.abspath(file))), os.path.basename(file))
         except Exception:  # noqa: BLE001
             return None
         return p if p.startswith(self.root) else None
@@ -226,7 +245,7 @@ def evaluate(case):
         lg.addHandler(logging.NullHandler())  # keeps 'NOT overwriting' warnings of gen_file out of the check's output
     out = Outcome()
     built = build(case)
-    out.sample = {"gen": case["gen"], "fault": case["fault"], "preexisting": case["preexisting"]}
+    out.sample = {"gen": case["gen"], "fault": case["fault"], "initial": case.get("initial", case.get("preexisting"))}
     if built is None:
         out.inconclusive = "input_rejected"
         return out
@@ -255,9 +274,19 @@ def evaluate(case):
         work = os.path.join(tmp, "work")
         os.mkdir(work)
         target = os.path.join(work, tname)
-        if case["preexisting"]:
+        initial = case.get("initial") or ("old" if case.get("preexisting") else "absent")
+        had_old = initial in ("old", "symlink_old")
+        if initial == "old":
             with open(target, "w", encoding="utf-8") as f:
                 f.write(OLD)
+        elif initial.startswith("symlink"):
+            # the output name is a symbolic link to an older export kept elsewhere (or to nothing)
+            store = os.path.join(tmp, "store")
+            os.mkdir(store)
+            if initial == "symlink_old":
+                with open(os.path.join(store, "older" + os.path.splitext(tname)[1]), "w", encoding="utf-8") as f:
+                    f.write(OLD)
+            os.symlink(os.path.join(store, "older" + os.path.splitext(tname)[1]), target)
         ctl2 = Control(work, fail_at=k, fault=case["fault"])
         raised = None
         try:
@@ -273,14 +302,14 @@ def evaluate(case):
             return out
         out.cls("op:" + ctl.ops[k])
         out.cls("fault:" + case["fault"])
-        out.cls("preexisting" if case["preexisting"] else "fresh")
+        out.cls("initial:" + initial)
         out.cls("propagated" if raised else "swallowed")
         out.nontrivial = (ctl2.hit_after_writes or 0) > 0
         state = "absent"
         if os.path.exists(target):
             with open(target, encoding="utf-8", errors="replace") as f:
                 content = f.read()
-            if content == OLD and case["preexisting"]:
+            if content == OLD and had_old:
                 state = "old"
             elif norm(content) == reference:
                 state = "new"
@@ -288,10 +317,11 @@ def evaluate(case):
                 state = "partial"
         out.cls("target_after_failure:" + state)
         where = f"{case['gen']}/{ctl.ops[k]}"
+        feat = "/symlinked_output" if initial.startswith("symlink") else ""
         if state == "partial":
-            out.add(f"partial_output_left/{case['gen']}",
-                    f"{where}: failure at operation {k} of {n} ({case['fault']}) left {len(content)} characters of "
-                    f"{len(reference)} at {tname}")
+            out.add(f"partial_output_left/{case['gen']}{feat}",
+                    f"{where}: failure at operation {k} of {n} ({case['fault']}, initial state {initial}) left {len(content)} "
+                    f"characters of {len(reference)} at {tname}")
         others = [x for x in sorted(os.listdir(work)) if x != tname]
         if others:
             out.add(f"other_file_left/{case['gen']}", f"{where}: {others}")
@@ -305,9 +335,9 @@ def evaluate(case):
         if os.path.exists(target):
             with open(target, encoding="utf-8", errors="replace") as f:
                 content = f.read()
-            ok = norm(content) == reference or (content == OLD and case["preexisting"])
+            ok = norm(content) == reference or (content == OLD and had_old)
         if not ok:
-            out.add(f"rerun_without_overwrite_keeps_incomplete_file/{case['gen']}",
+            out.add(f"rerun_without_overwrite_keeps_incomplete_file/{case['gen']}{feat}",
                     f"{where}: after the failed run a run without overwrite ends with an incomplete {tname}")
         return out
     finally:
